@@ -17,6 +17,29 @@ struct Open {
     start: Option<usize>,
     /// byte range of the content for known-size masters
     range: Option<(usize, usize)>,
+    /// the root of a buffered (Full) master: its children carry no offsets
+    full: bool,
+}
+
+/// A Full item is the Start, the children (no offsets of their own) and the End of a buffered master.
+fn expand(items: &[(NItem, usize)]) -> Vec<(NItem, Option<usize>, bool)> {
+    fn rec(i: &NItem, off: Option<usize>, out: &mut Vec<(NItem, Option<usize>, bool)>) {
+        match i {
+            NItem::Full(id, ch) => {
+                out.push((NItem::Start(*id), off, true));
+                for c in ch {
+                    rec(c, None, out);
+                }
+                out.push((NItem::End(*id), None, false));
+            }
+            other => out.push((other.clone(), off, false)),
+        }
+    }
+    let mut out = Vec::new();
+    for (i, o) in items {
+        rec(i, Some(*o), &mut out);
+    }
+    out
 }
 
 /// NestingChecker: replays the Ok items of a strict parse against the statement of C06.
@@ -24,14 +47,16 @@ pub fn nesting_check(input: &[u8], obs: &Obs, rs: &RefSpec) -> Result<(), (Strin
     let mut chain: Vec<Open> = Vec::new();
     let mut determined = false;
     // end of the previous non-End item (parse position)
-    let mut cursor: usize = 0;
+    // (None: unknown, after a buffered master of unknown size)
+    let mut cursor: Option<usize> = Some(0);
     // once an early End (before its range is exhausted) was seen, only Ends may follow and the parse must end cleanly at end of input
     let mut early_end_seen = false;
-    for (n, (item, off)) in obs.items.iter().enumerate() {
-        let off = *off;
+    let expanded = expand(&obs.items);
+    for (n, (item, off, full_root)) in expanded.iter().enumerate() {
+        let (off, full_root) = (*off, *full_root);
         match item {
             NItem::Raw(id, _) => return Err(("raw-tag-in-strict-mode".into(), format!("item #{} raw tag {:x}", n, id))),
-            NItem::Full(..) => return Err(("machinery/full-item-without-buffering".into(), format!("item #{}", n))),
+            NItem::Full(..) => unreachable!(),
             NItem::End(id) => {
                 if !determined && chain.is_empty() {
                     return Err(("end/before-any-start".into(), format!("item #{} End({:x}) before the position in the document is known", n, id)));
@@ -42,8 +67,11 @@ pub fn nesting_check(input: &[u8], obs: &Obs, rs: &RefSpec) -> Result<(), (Strin
                         if o.id != *id {
                             return Err(("end/not-innermost".into(), format!("item #{} End({:x}) but the innermost open master is {:x}", n, id, o.id)));
                         }
-                        if let Some((_, e)) = o.range {
-                            if cursor < e {
+                        if o.full {
+                            // the whole buffered master has been consumed
+                            cursor = o.range.map(|r| r.1);
+                        } else if let (Some((_, e)), Some(c)) = (o.range, cursor) {
+                            if c < e {
                                 early_end_seen = true;
                             }
                         }
@@ -63,7 +91,7 @@ pub fn nesting_check(input: &[u8], obs: &Obs, rs: &RefSpec) -> Result<(), (Strin
                     let mut implied: Vec<Open> = Vec::new();
                     for p in rs.path(*id) {
                         if let PP::Id(a) = p {
-                            implied.push(Open { id: *a, start: None, range: None });
+                            implied.push(Open { id: *a, start: None, range: None, full: false });
                         }
                     }
                     implied.append(&mut chain);
@@ -79,6 +107,16 @@ pub fn nesting_check(input: &[u8], obs: &Obs, rs: &RefSpec) -> Result<(), (Strin
                         ));
                     }
                 }
+                let Some(off) = off else {
+                    // a child of a buffered master: structure only
+                    if ty == Ty::Master {
+                        if !matches!(item, NItem::Start(_)) {
+                            return Err(("machinery/master-leaf".into(), String::new()));
+                        }
+                        chain.push(Open { id: *id, start: None, range: None, full: false });
+                    }
+                    continue;
+                };
                 // a known-size master whose range is exhausted must have been closed before this item
                 for o in &chain {
                     if let Some((_, e)) = o.range {
@@ -110,10 +148,10 @@ pub fn nesting_check(input: &[u8], obs: &Obs, rs: &RefSpec) -> Result<(), (Strin
                     if !matches!(item, NItem::Start(_)) {
                         return Err(("machinery/master-leaf".into(), String::new()));
                     }
-                    chain.push(Open { id: *id, start: Some(off), range: h.size.map(|s| (data_start, data_start + s as usize)) });
-                    cursor = data_start;
+                    chain.push(Open { id: *id, start: Some(off), range: h.size.map(|s| (data_start, data_start + s as usize)), full: full_root });
+                    cursor = Some(data_start);
                 } else {
-                    cursor = ext_end;
+                    cursor = Some(ext_end);
                 }
             }
         }
@@ -123,9 +161,9 @@ pub fn nesting_check(input: &[u8], obs: &Obs, rs: &RefSpec) -> Result<(), (Strin
             if !chain.is_empty() {
                 return Err(("eof/open-master-without-end".into(), format!("parse ended cleanly with [{}] still open", chain.iter().map(|o| rs.name(o.id)).collect::<Vec<_>>().join("/"))));
             }
-            if early_end_seen && cursor < input.len() {
+            if early_end_seen && cursor.map(|c| c < input.len()).unwrap_or(false) {
                 // Ends before range exhaustion are only legitimate when the input ended
-                return Err(("known-size-end/emitted-before-range-exhausted".into(), format!("clean end at parse position {} of {} input bytes", cursor, input.len())));
+                return Err(("known-size-end/emitted-before-range-exhausted".into(), format!("clean end at parse position {:?} of {} input bytes", cursor, input.len())));
             }
             Ok(())
         }
@@ -140,17 +178,35 @@ pub fn nesting_check(input: &[u8], obs: &Obs, rs: &RefSpec) -> Result<(), (Strin
     }
 }
 
+/// buffered sets for a document: each master id present alone, and all of them
+fn buffered_sets(doc: &[crate::refmodel::Node]) -> Vec<Vec<u64>> {
+    let mut present: Vec<u64> = Vec::new();
+    crate::refmodel::visit(doc, &mut |n, _| {
+        if n.is_master() && !present.contains(&n.id) {
+            present.push(n.id);
+        }
+    }, 0);
+    let mut out: Vec<Vec<u64>> = present.iter().map(|i| vec![*i]).collect();
+    if present.len() > 1 {
+        out.push(present);
+    }
+    out
+}
+
 fn run_one<T: SpecT>(ctx: &mut Ctx, rs: &RefSpec, input: &[u8], cfg: &Cfg, origin: &str) {
-    let d = || format!("{} input={}", origin, hex(input));
+    let d = || format!("{} input={} buffered=[{}]", origin, hex(input), cfg.buffered.iter().map(|x| format!("{:x}", x)).collect::<Vec<_>>().join(","));
     if !ctx.enter(&d) {
         return;
     }
     let obs = parse_slice::<T>(input, cfg);
+    if !cfg.buffered.is_empty() {
+        ctx.count("parses_with_buffered_masters", 1);
+    }
     ctx.transitions += obs.items.len() as u64 + 1;
     // non-trivial: at least two levels open at some point
     let mut depth = 0i32;
     let mut maxd = 0;
-    for (i, _) in &obs.items {
+    for (i, _, _) in &expand(&obs.items) {
         match i {
             NItem::Start(_) => {
                 depth += 1;
@@ -179,13 +235,14 @@ pub fn run(ctx: &mut Ctx) {
     crate::spec::assert_spec_matches::<V>(&rs);
     let n = ctx.tier.pick(6, 7);
     let doc_nodes = ctx.tier.pick(4, 5);
-    ctx.meta("rule", "cases: byte streams parsed by the strict iterator from a slice; streams = every string over Σ up to length n, every document of T∘E (all known/unknown-size mixes, deep spines) and every single mutation (byte replaced by each Σ byte, byte deleted, truncation, every mid-document suffix at an element boundary), and documents longer than the 64 KiB buffer with long headers around the buffer boundary, whole and cut near the boundary; and over the second derived specification W (placeholder paths, a global master, a bounded global leaf): every string over Σ_W up to length n-1 and every document with all single mutations. Oracle: NestingChecker replays the Ok items: End matches innermost open Start or the next implied ancestor; ids known; ref_path_match(path, open chain) once the first non-global element fixed the position; element extents (header decoded by RefCodec at the reported offset) inside every enclosing known-size master; known-size End neither late nor early (early only at end of input); all masters closed at a clean end. Non-trivial: >= 2 levels open at some point.");
+    ctx.meta("rule", "cases: byte streams parsed by the strict iterator from a slice; streams = every string over Σ up to length n, every document of T∘E (all known/unknown-size mixes, deep spines) and every single mutation (byte replaced by each Σ byte, byte deleted, truncation, every mid-document suffix at an element boundary), and documents longer than the 64 KiB buffer with long headers around the buffer boundary, whole and cut near the boundary; and over the second derived specification W (placeholder paths, a global master, a bounded global leaf): every string over Σ_W up to length n-1 and every document with all single mutations; every unmutated document of V and W additionally with each master id present, and all of them, buffered (a Full item counts as its Start, children and End; its children have no offsets, so only the structural rules apply inside it). Oracle: NestingChecker replays the Ok items: End matches innermost open Start or the next implied ancestor; ids known; ref_path_match(path, open chain) once the first non-global element fixed the position; element extents (header decoded by RefCodec at the reported offset) inside every enclosing known-size master; known-size End neither late nor early (early only at end of input); all masters closed at a clean end. Non-trivial: >= 2 levels open at some point.");
     ctx.meta("bounds", &format!("Σ* length <= {}; documents <= {} elements (+ spines), all single mutations; W: Σ_W* length <= {}, documents <= {} elements", n, doc_nodes, ctx.tier.pick(5, 6), ctx.tier.pick(4, 5)));
     ctx.meta("assumptions", "64 KiB tag-size limit on the mutation corpus (mutated size fields otherwise allocate gigabytes legitimately)");
     ctx.expect_nonzero("mid_document_starts");
     ctx.expect_nonzero("buffer_boundary_docs");
     ctx.expect_nonzero("w_strings");
     ctx.expect_nonzero("w_docs");
+    ctx.expect_nonzero("parses_with_buffered_masters");
     let cfg = Cfg::strict();
     let mut mcfg = Cfg::strict();
     mcfg.max_size = MaxSize::Limit(1 << 16);
@@ -212,6 +269,9 @@ pub fn run(ctx: &mut Ctx) {
     docs::for_each_doc(ctx, &rs, &p, &mut |ctx, doc| {
         let (bytes, lay) = ref_encode(doc);
         run_one::<V>(ctx, &rs, &bytes, &cfg, "doc");
+        for set in buffered_sets(doc) {
+            run_one::<V>(ctx, &rs, &bytes, &cfg.clone().with_buffered(&set), "doc");
+        }
         let bounds: Vec<usize> = lay.iter().map(|l| l.tag_start).collect();
         docs::for_each_mutation(&bytes, &bounds, &SIGMA, &kinds, &mut |m, _k, _pos| {
             run_one::<V>(ctx, &rs, m, &mcfg, "mut");
@@ -234,6 +294,9 @@ pub fn run(ctx: &mut Ctx) {
         let (bytes, lay) = ref_encode(doc);
         ctx.count("w_docs", 1);
         run_one::<W>(ctx, &w, &bytes, &cfg, "W-doc");
+        for set in buffered_sets(doc) {
+            run_one::<W>(ctx, &w, &bytes, &cfg.clone().with_buffered(&set), "W-doc");
+        }
         let bounds: Vec<usize> = lay.iter().map(|l| l.tag_start).collect();
         docs::for_each_mutation(&bytes, &bounds, &SIGMA_W, &kinds, &mut |m, _k, _pos| {
             run_one::<W>(ctx, &w, m, &mcfg, "W-mut");
